@@ -623,6 +623,60 @@ def float_problem(rs, pyrng, nmax):
     return dict(n=n, cplx=cplx, hermitian=hermitian, R=R, Ri=Ri, sizes=sizes, levels=levels, h0=h0)
 
 
+def rotation_problem(pyrng):
+    """Real-dtype, non-symmetric, exactly representable h0 = S B S^-1: S an integer unimodular
+    matrix, B block diagonal with rotation-like blocks [[a,-b],[b,a]] (eigenvalues a +- ib) and real
+    1x1 blocks.  The explicit eigenvalues contain at least one member of a complex-conjugate pair;
+    the biorthogonal right/left eigenvectors are complex (entries in Z[i] resp. Z[i]/2)."""
+    n = pyrng.randint(3, 7)
+    S, Si = unimodular(pyrng, n, False, bound=3)
+    S, Si = S.real, Si.real
+    B = np.zeros((n, n))
+    T = np.zeros((n, n), dtype=complex)
+    Ti = np.zeros((n, n), dtype=complex)
+    D = np.zeros(n, dtype=complex)
+    # the first block is a rotation (it carries the explicit complex level); the rest is mixed
+    centres = pyrng.sample([-9, -6, -3, 0, 3, 6, 9, 12], n)
+    pos, blk, pairs = 0, 0, []
+    while pos < n:
+        a = float(centres[blk])
+        if n - pos >= 2 and (blk == 0 or pyrng.random() < 0.4):
+            b = float(pyrng.choice([1, 2]))
+            B[pos:pos + 2, pos:pos + 2] = [[a, -b], [b, a]]
+            T[pos:pos + 2, pos:pos + 2] = [[1, 1], [-1j, 1j]]
+            Ti[pos:pos + 2, pos:pos + 2] = [[0.5, 0.5j], [0.5, -0.5j]]
+            D[pos], D[pos + 1] = a + 1j * b, a - 1j * b
+            pairs.append(pos)
+            pos += 2
+        else:
+            B[pos, pos] = a
+            T[pos, pos] = Ti[pos, pos] = 1
+            D[pos] = a
+            pos += 1
+        blk += 1
+    h0 = S @ B @ Si  # exact integers, real dtype
+    W, Wi = S @ T, Ti @ Si
+    # choice of the explicit eigenvectors
+    kind = pyrng.choice(["pair_one_block", "pair_two_blocks", "one_member", "pair_plus_real"])
+    reals = [j for j in range(n) if D[j].imag == 0]
+    if kind == "pair_plus_real" and not reals:
+        kind = "pair_one_block"
+    if kind == "pair_one_block":
+        groups = [[0, 1]]
+    elif kind == "pair_two_blocks":
+        groups = [[0], [1]]
+    elif kind == "one_member":
+        groups = [[pyrng.choice([0, 1])]]
+    else:
+        groups = [[0, 1], [pyrng.choice(reals)]]
+    if sum(len(g) for g in groups) >= n:
+        groups = [[0]]
+    expl = [j for g in groups for j in g]
+    order = expl + [j for j in range(n) if j not in expl]
+    return dict(n=n, cplx=True, hermitian=False, R=W[:, order], Ri=Wi[order, :], sizes=[len(g) for g in groups],
+                levels=[complex(D[j]) for j in expl], h0=h0, dense_h0=pyrng.random() < 0.5, family="rotation:" + kind)
+
+
 def eval_float_problem(p, rs):
     """Returns failure strings."""
     fails = []
@@ -633,6 +687,7 @@ def eval_float_problem(p, rs):
     lefts = [Ri[offs[i]:offs[i + 1], :].conj().T for i in range(len(sizes))]
     Pfull = np.eye(n) - R[:, :nexp] @ Ri[:nexp, :]
     tol = 1e-8 * (1 + np.abs(h0).max()) * (1 + np.linalg.cond(R))
+    h0_arg = (lambda: np.array(h0)) if p.get("dense_h0") else (lambda: sp.csr_array(h0))
     with warnings.catch_warnings():
         warnings.simplefilter("ignore")
         # --- direct_greens_function on the first group
@@ -653,7 +708,7 @@ def eval_float_problem(p, rs):
         # --- solve_sylvester_direct
         eigvecs = [r if p["hermitian"] else (r, l) for r, l in zip(rights, lefts)]
         try:
-            solve = impl_bd.solve_sylvester_direct(sp.csr_array(h0), eigvecs, nonhermitian=not p["hermitian"], eigenvalue_atol=1e-9)
+            solve = impl_bd.solve_sylvester_direct(h0_arg(), eigvecs, nonhermitian=not p["hermitian"], eigenvalue_atol=1e-9)
         except Exception as e:
             return fails + ["solve_sylvester_direct raised %s: %s" % (type(e).__name__, e)]
         nb = len(sizes)
@@ -683,7 +738,11 @@ def eval_float_problem(p, rs):
             # explicit-explicit blocks
             for j in range(nb):
                 Y = rand_c(rs, (sizes[i], sizes[j]), p["cplx"])
-                V = solve(Y.copy(), (i, j))
+                try:
+                    V = solve(Y.copy(), (i, j))
+                except Exception as e:
+                    fails.append("solve_sylvester_direct explicit block (%d,%d) raised %s: %s" % (i, j, type(e).__name__, e))
+                    continue
                 Hjj = np.diag(p["levels"][offs[j]:offs[j + 1]])
                 Ei, Ej = np.array(p["levels"][offs[i]:offs[i + 1]]), np.array(p["levels"][offs[j]:offs[j + 1]])
                 mask = np.abs(Ei[:, None] - Ej[None, :]) > 1e-9
@@ -701,14 +760,16 @@ def oracle_greens(ctx, n=None):
         seed = pyrng.randrange(2**32)
         rs = np.random.default_rng(seed)
         sub = __import__("random").Random(seed)
-        p = float_problem(rs, sub, ctx.n(7, 12))
+        rot = i % 4 == 3  # real non-symmetric h0 with complex-conjugate explicit eigenvalues
+        p = rotation_problem(sub) if rot else float_problem(rs, sub, ctx.n(7, 12))
         fs = eval_float_problem(p, rs)
-        feats.add((p["n"], p["cplx"], p["hermitian"], tuple(p["sizes"]), len(set(p["levels"])) < len(p["levels"])))
+        feats.add((p["n"], p["cplx"], p["hermitian"], tuple(p["sizes"]), len(set(p["levels"])) < len(p["levels"]), p.get("family"), p.get("dense_h0")))
         for f in fs[:2]:
-            fails.append(dict(what=f, input=dict(oracle="greens", seed=seed, nmax=ctx.n(7, 12))))
+            fails.append(dict(what=("[%s, %s h0] " % (p["family"], "dense" if p["dense_h0"] else "sparse") if rot else "") + f,
+                              input=dict(oracle="greens", seed=seed, nmax=ctx.n(7, 12), rotation=rot)))
         if len(fails) > 10:
             break
-    return dict(evaluations=n, nontrivial=len(feats), rule="distinct (n, complex, hermitian, explicit block sizes, degenerate explicit levels)", samples=[], failures=fails[:10])
+    return dict(evaluations=n, nontrivial=len(feats), rule="distinct (n, complex, hermitian, explicit block sizes, degenerate explicit levels, rotation family, dense h0)", samples=[], failures=fails[:10])
 
 
 def replay(inp):
@@ -716,7 +777,10 @@ def replay(inp):
     if inp.get("oracle") == "greens":
         rs = np.random.default_rng(inp["seed"])
         sub = __import__("random").Random(inp["seed"])
-        fs = eval_float_problem(float_problem(rs, sub, inp["nmax"]), rs)
+        p = rotation_problem(sub) if inp.get("rotation") else float_problem(rs, sub, inp["nmax"])
+        if inp.get("rotation"):
+            print("  h0 (real dtype, %s) =" % ("dense" if p["dense_h0"] else "sparse"), p["h0"].tolist(), "explicit levels", p["levels"], "blocks", p["sizes"])
+        fs = eval_float_problem(p, rs)
         for f in fs:
             print("  still failing:", f)
         return 1 if fs else 0
